@@ -2,6 +2,7 @@ package clip
 
 import (
 	"context"
+	"errors"
 	"fmt"
 	"sort"
 	"testing"
@@ -23,7 +24,15 @@ type CoalesceCase struct {
 	StaggerMs []int   `json:"stagger_ms"` // start offsets of the callers (all within the first request)
 	Changed  []string `json:"changed"`   // names with a new version at the service
 	Ticker   bool     `json:"ticker"`    // one of the overlapping polls is the store's own background poll
+	DeadlineMs []int  `json:"deadline_ms"` // per caller (index mod len): >0 = that Refresh carries a deadline this long (+37us); it may expire while the flight is still running
 	CancelMs int      `json:"cancel_after"` // >0: the context of caller 0 (started first, alone) is cancelled right after the n-th request of the poll was answered, i.e. between two requests
+}
+
+func (c CoalesceCase) deadline(i int) int {
+	if len(c.DeadlineMs) == 0 || i == 0 {
+		return 0 // only joiners carry deadlines: the starter's context governs the whole flight
+	}
+	return c.DeadlineMs[i%len(c.DeadlineMs)]
 }
 
 func runCoalesce(t *testing.T, c CoalesceCase) (v *h.Violation, info h.Info) {
@@ -60,7 +69,8 @@ func runCoalesce(t *testing.T, c CoalesceCase) (v *h.Violation, info h.Info) {
 		done := make(chan int, c.Callers)
 		for i := 0; i < c.Callers; i++ {
 			go func() {
-				if !(i == 0 && c.CancelMs > 0 && !c.Ticker) {
+				if i != 0 {
+					// caller 0 always starts the flight (at instant 0); everybody else joins strictly later
 					time.Sleep(time.Duration(c.StaggerMs[i%len(c.StaggerMs)])*time.Millisecond + 100*time.Microsecond)
 				}
 				if c.Ticker && i == 0 {
@@ -73,6 +83,10 @@ func runCoalesce(t *testing.T, c CoalesceCase) (v *h.Violation, info h.Info) {
 							cancel()
 						}
 					}
+					errs[i] = st.Refresh(ctx)
+					cancel()
+				} else if dl := c.deadline(i); dl > 0 {
+					ctx, cancel := context.WithTimeout(context.Background(), time.Duration(dl)*time.Millisecond+37*time.Microsecond)
 					errs[i] = st.Refresh(ctx)
 					cancel()
 				} else {
@@ -92,6 +106,10 @@ func runCoalesce(t *testing.T, c CoalesceCase) (v *h.Violation, info h.Info) {
 		cancelled := c.CancelMs > 0 && !c.Ticker
 		okCallers := 0
 		for i, e := range errs {
+			if e != nil && c.deadline(i) > 0 && errors.Is(e, context.DeadlineExceeded) {
+				info.Class("a-joiner-timed-out-mid-flight")
+				continue // this caller's own deadline; the others must not notice
+			}
 			if e != nil && !cancelled {
 				v = h.V("overlapping-refreshes-coalesce", "Refresh %d failed: %v", i, e)
 				return
@@ -158,6 +176,7 @@ var c11coalesce = &h.Campaign[CoalesceCase]{
 			Callers:   rapid.IntRange(1, 6).Draw(rt, "callers"),
 			DelayMs:   d,
 			StaggerMs: rapid.SliceOfN(rapid.IntRange(0, d-1), 1, 6).Draw(rt, "stagger"),
+			DeadlineMs: rapid.SliceOfN(rapid.SampledFrom([]int{0, 0, 0, d / 2, d, 2 * d}), 0, 6).Draw(rt, "deadlines"),
 			Changed:   rapid.SliceOfN(rapid.SampledFrom([]string{"a", "b", "c", "d"}), 0, 3).Draw(rt, "changed"),
 			Ticker:    rapid.Bool().Draw(rt, "ticker"),
 			CancelMs:  rapid.SampledFrom([]int{0, 0, 0, 1, 1, 2}).Draw(rt, "cancelafter"),
